@@ -30,6 +30,10 @@ Fixpoint plain_args (args : list rval) (ps : list string) : bool :=
   | _, _ => false
   end.
 
+(* the names in the fields of a printf format: variables, or registers a script can see *)
+Definition names_visible (names : list string) : bool :=
+  forallb (fun n => match register_of_name n with Some r => visible r | None => true end) names.
+
 (* ---- expressions with calls: {n * [f {n - 1}]} ---- *)
 Inductive CExpr : expr -> Prop :=
 | CE_pure e : supported mt e = true -> regs_visible e = true -> CExpr e
@@ -62,6 +66,8 @@ Inductive SimpleB : bool -> bool -> stmt -> Prop :=
 | B_retexpr inl e : CExpr e -> SimpleB inl true (SReturn (Some (RExpr e)))
 | B_callret inl f args d : builtin_params f builtin_table = None -> find_rdef rt f = Some d ->
     plain_args args (rd_params d) = true -> must_return (rd_body d) = true -> SimpleB inl true (SReturn (Some (RCall f args)))
+| B_printf inl inr fmt args names k : printf_names fmt = Some names -> printf_positional fmt = Some k ->
+    forallb (plain_rval mt) args = true -> (zlength args <=? k) = true -> names_visible names = true -> SimpleB inl inr (SPrintf fmt args)
 | B_if inl inr c a : plain_rval mt c = true -> SimpleB inl inr a -> SimpleB inl inr (SIf c a None)
 | B_ifelse inl inr c a b : plain_rval mt c = true -> SimpleB inl inr a -> SimpleB inl inr b -> SimpleB inl inr (SIf c a (Some b))
 | B_block inl inr l : SimpleBL inl inr l -> SimpleB inl inr (SBlock l)
@@ -277,6 +283,24 @@ Proof. rewrite c_return, c_rval_expr, <- app_assoc. reflexivity. Qed.
 Lemma use_pop_no_routine u : forallb not_routine (use_pop u) = true.
 Proof. destruct u as [y|r|[|]]; reflexivity. Qed.
 
+(* ---- printf ---- *)
+Definition pf_args_code (args : list rval) : program :=
+  flat_map (fun a => c_rval rt mt a (DReg R_RESULT) ++ [I2 OC_OUT (PIoOp IO_REGISTER) (PReg R_RESULT)]) args.
+Lemma c_printf after fmt args : c_stmt rt mt false after (SPrintf fmt args) = pf_args_code args ++ [I2 OC_OUT (PIoOp IO_PRINTF) (PStr fmt)].
+Proof. reflexivity. Qed.
+Lemma exec_printf f ss fmt args : Sem.exec rt mt (S f) false ss (SPrintf fmt args) =
+  (let* (vs, s1) := eval_args rt mt f false ss args in
+   match printf_names fmt with
+   | Some names => ROk SigNormal (s_emit s1 [EvPrintf fmt vs (map (fun n => (n, match register_of_name n with Some r => rreg (s_regs s1) r | None => lookup s1 n end)) names)])
+   | None => RErr (EUnsupported "printf format outside the scanned subset") s1
+   end).
+Proof. reflexivity. Qed.
+Lemma pf_args_no_routine args : forallb (plain_rval mt) args = true -> forallb not_routine (pf_args_code args) = true.
+Proof.
+  induction args as [|a r IH]; intros H; [reflexivity|]. cbn [forallb] in H. apply andb_true_iff in H. destruct H as [Ha Hr].
+  unfold pf_args_code in *. cbn [flat_map]. rewrite !forallb_app, (c_rval_no_routine rt mt a (DReg R_RESULT) Ha (plain_ok_result mt a Ha)), (IH Hr). reflexivity.
+Qed.
+
 Lemma simpleB_no_routine :
   (forall inl inr st, SimpleB inl inr st -> forall after, forallb not_routine (c_stmt rt mt false after st) = true) /\
   (forall inl inr l, SimpleBL inl inr l -> forall after, forallb not_routine (c_stmt rt mt false after (SBlock l)) = true).
@@ -293,6 +317,7 @@ Proof.
   - intros inl inr u e He Hok after. rewrite (c_useexpr after u e), forallb_app, (cexpr_no_routine e He), use_pop_no_routine. reflexivity.
   - intros inl e He after. rewrite (c_retexpr after e), forallb_app, (cexpr_no_routine e He). reflexivity.
   - intros inl f args d Hb Hf Ha _ after. rewrite (c_retcall after f args d Hb Hf), forallb_app, (call_code_no_routine d f args Ha). reflexivity.
+  - intros inl inr fmt args names k _ _ Hpl _ _ after. rewrite c_printf, forallb_app, (pf_args_no_routine args Hpl). reflexivity.
   - intros inl inr c a Hc _ IHa after. rewrite c_if1_after, !forallb_app, (IHa after), (c_rval_no_routine rt mt c (DReg R_RESULT) Hc (plain_ok_result mt c Hc)). reflexivity.
   - intros inl inr c a b Hc _ IHa _ IHb after. rewrite c_if2_after, !forallb_app, (IHa _), (IHb after), (c_rval_no_routine rt mt c (DReg R_RESULT) Hc (plain_ok_result mt c Hc)). reflexivity.
   - intros inl inr l _ IH after. exact (IH after).
@@ -418,7 +443,7 @@ Proof. intros H. exists 0%nat, s, []. split; [reflexivity|]. split; [exact H|]. 
 (* ---- the arguments of a call, evaluated while the new frame is under construction ---- *)
 Lemma simr_put_reg_hidden ss s r x k : simr ss s -> visible r = false -> register_eqb R_DISC_FORWARD r = false -> simr ss (put_vm s (DReg r) x k).
 Proof.
-  intros H Hv Hnd. destruct H as [Hr Hf Hg Hvars Hw Hu Hdf]. constructor; cbn; try assumption.
+  intros H Hv Hnd. destruct H as [Hr Hf Hg Hvars Hw Hdf]. constructor; cbn; try assumption.
   - apply agree_set_hidden; assumption.
   - rewrite rf_get_set_other; [exact Hdf|exact Hnd].
 Qed.
@@ -433,11 +458,11 @@ Lemma args_run : forall args ps, plain_args args ps = true ->
   forall fuel im ss s p0 F vs ss', simr ss s -> m_frames s = FCall p0 false None :: F -> code_at im (m_pc s) (c_args ps args) ->
   eval_args rt mt fuel false ss args = ROk vs ss' ->
   ss' = ss /\ exists n s' p1, esteps n im s = Some (s', []) /\ simr ss s' /\ m_pc s' = m_pc s + zlength (c_args ps args) /\
-                              m_frames s' = FCall p1 false None :: F /\ m_stack s' = m_stack s /\ bind_params ps vs p0 = Some p1.
+                              m_frames s' = FCall p1 false None :: F /\ m_stack s' = m_stack s /\ bind_params ps vs p0 = Some p1 /\ m_unnamed s' = m_unnamed s.
 Proof.
   induction args as [|a r IH]; intros ps Hpl fuel im ss s p0 F vs ss' Hsim Hfr Hc He; destruct ps as [|p ps]; cbn [plain_args] in Hpl; try discriminate.
   - destruct fuel as [|fuel]; [discriminate|]. rewrite eval_args_nil in He. injection He as Hvs Hss. subst vs ss'. split; [reflexivity|].
-    exists 0%nat, s, p0. split; [reflexivity|]. split; [exact Hsim|]. split; [cbn [c_args]; unfold zlength; cbn; lia|]. split; [exact Hfr|]. split; reflexivity.
+    exists 0%nat, s, p0. split; [reflexivity|]. split; [exact Hsim|]. split; [cbn [c_args]; unfold zlength; cbn; lia|]. split; [exact Hfr|]. split; [reflexivity|]. split; reflexivity.
   - apply andb_true_iff in Hpl. destruct Hpl as [Ha Hr].
     destruct fuel as [|fuel]; [discriminate|]. rewrite eval_args_S in He.
     destruct (eval_rval rt mt fuel false ss a) as [v s1|e s1|s1] eqn:Ev; cbn [sbind] in He; try discriminate.
@@ -455,14 +480,71 @@ Proof.
       assert (Hg : get_reg sa R_RESULT = Ok v) by (unfold sa; cbn [put_vm get_reg m_regs]; rewrite rf_get_set_same; reflexivity).
       rewrite Hg. cbn [bind]. change (m_frames sa) with (m_frames s). rewrite Hfr. reflexivity. }
     assert (Hsb : simr ss sb).
-    { destruct Hsa as [Hr' Hf' Hg' Hv' Hw' Hu' Hdf]. constructor; cbn [sb advance with_pc with_frames with_vars m_regs m_globals m_frames m_world m_unnamed]; try assumption.
+    { destruct Hsa as [Hr' Hf' Hg' Hv' Hw' Hdf]. constructor; cbn [sb advance with_pc with_frames with_vars m_regs m_globals m_frames m_world m_unnamed]; try assumption.
       change (m_frames sa) with (m_frames s) in Hv'. rewrite Hfr in Hv'. exact Hv'. }
     assert (Hcr' : code_at im (m_pc sb) (c_args ps r)) by exact Hcr.
-    destruct (IH ps Hr fuel im ss sb (env_set p0 p v) F vs' s2 Hsb eq_refl Hcr' Er) as [Hs2 (n2 & s' & p1 & E2 & Hs' & Hpc' & Hfr' & Hst' & Hb)]. subst s2.
+    destruct (IH ps Hr fuel im ss sb (env_set p0 p v) F vs' s2 Hsb eq_refl Hcr' Er) as [Hs2 (n2 & s' & p1 & E2 & Hs' & Hpc' & Hfr' & Hst' & Hb & Hun')]. subst s2.
     split; [reflexivity|]. exists (n + (1 + n2))%nat, s', p1.
     split; [replace (@nil event) with (@nil event ++ (@nil event ++ @nil event)) by reflexivity; eapply esteps_app; [exact Hn|eapply esteps_app; [exact Eb|exact E2]]|].
     split; [exact Hs'|]. split; [rewrite Hpc'; unfold sb, sa; cbn [advance with_pc with_frames with_vars put_vm m_pc]; fold k; unfold zlength; rewrite !app_length, !Nat2Z.inj_add; cbn [length]; unfold k, zlength; lia|].
-    split; [exact Hfr'|]. split; [exact Hst'|]. cbn [bind_params]. exact Hb.
+    split; [exact Hfr'|]. split; [exact Hst'|]. split; [cbn [bind_params]; exact Hb|]. exact Hun'.
+Qed.
+
+(* the values wait in the list of unnamed parameters, in the order of the arguments *)
+Lemma pf_args_run : forall args fuel im ss s vs ss', forallb (plain_rval mt) args = true -> simr ss s ->
+  code_at im (m_pc s) (pf_args_code args) -> eval_args rt mt fuel false ss args = ROk vs ss' ->
+  ss' = ss /\ exists n s', esteps n im s = Some (s', []) /\ simr ss s' /\ m_pc s' = m_pc s + zlength (pf_args_code args) /\
+                          m_unnamed s' = m_unnamed s ++ vs /\ m_stack s' = m_stack s /\ m_frames s' = m_frames s /\ length vs = length args.
+Proof.
+  induction args as [|a r IH]; intros fuel im ss s vs ss' Hpl Hsim Hc He.
+  - destruct fuel as [|fuel]; [discriminate|]. rewrite eval_args_nil in He. injection He as <- <-. split; [reflexivity|].
+    exists 0%nat, s. split; [reflexivity|]. split; [exact Hsim|]. split; [unfold zlength; cbn; lia|]. split; [rewrite app_nil_r; reflexivity|]. repeat split.
+  - cbn [forallb] in Hpl. apply andb_true_iff in Hpl. destruct Hpl as [Ha Hr].
+    destruct fuel as [|fuel]; [discriminate|]. rewrite eval_args_S in He.
+    destruct (eval_rval rt mt fuel false ss a) as [v s1|e s1|s1] eqn:Ev; cbn [sbind] in He; try discriminate.
+    destruct (eval_args rt mt fuel false s1 r) as [vs' s2|e s2|s2] eqn:Er; cbn [sbind] in He; try discriminate.
+    injection He as Hvs Hss. subst vs ss'.
+    unfold pf_args_code in Hc |- *. cbn [flat_map] in Hc |- *. fold (pf_args_code r) in Hc |- *.
+    apply code_at_app in Hc. destruct Hc as [Hc1 Hcr]. apply code_at_app in Hc1. destruct Hc1 as [Hca Hco]. cbn [code_at] in Hco. destruct Hco as [Hfo _].
+    destruct (c_rval_runs_r rt mt a (DReg R_RESULT) Ha (plain_ok_result mt a Ha) im ss s v s1 fuel Hsim Hca Ev) as [Hs1 [n Hn]]. subst s1.
+    set (k := zlength (c_rval rt mt a (DReg R_RESULT))) in *.
+    set (sa := put_vm s (DReg R_RESULT) v k) in *.
+    assert (Hsa : simr ss sa) by (apply simr_put_reg_hidden; [exact Hsim|reflexivity|reflexivity]).
+    set (sb := advance (with_unnamed sa (m_unnamed sa ++ [v]))).
+    assert (Eb : esteps 1 im sa = Some (sb, [])).
+    { apply (estep1 im sa _ _ _ Hfo). cbn [Machine.exec i_op i_p0 i_p1 I2].
+      assert (Hg : get_reg sa R_RESULT = Ok v) by (unfold sa; cbn [put_vm get_reg m_regs]; rewrite rf_get_set_same; reflexivity).
+      rewrite Hg. reflexivity. }
+    assert (Hsb : simr ss sb) by (destruct Hsa as [H1 H2 H3 H4 H5 H6]; constructor; assumption).
+    assert (Hcr' : code_at im (m_pc sb) (pf_args_code r)).
+    { unfold sb, sa. cbn [advance with_pc with_unnamed put_vm m_pc]. fold k.
+      replace (m_pc s + k + 1) with (m_pc s + zlength (c_rval rt mt a (DReg R_RESULT) ++ [I2 OC_OUT (PIoOp IO_REGISTER) (PReg R_RESULT)])); [exact Hcr|].
+      unfold zlength. rewrite app_length, Nat2Z.inj_add. cbn [length]. unfold k, zlength. lia. }
+    destruct (IH fuel im ss sb vs' s2 Hr Hsb Hcr' Er) as [Hs2 (n2 & s' & E2 & Hs' & Hpc' & Hun' & Hsk' & Hfr' & Hlen')]. subst s2.
+    split; [reflexivity|]. exists (n + (1 + n2))%nat, s'.
+    split; [replace (@nil event) with (@nil event ++ (@nil event ++ @nil event)) by reflexivity; eapply esteps_app; [exact Hn|eapply esteps_app; [exact Eb|exact E2]]|].
+    split; [exact Hs'|].
+    split; [rewrite Hpc'; unfold sb, sa; cbn [advance with_pc with_unnamed put_vm m_pc]; fold k; unfold zlength; rewrite !app_length, !Nat2Z.inj_add; cbn [length]; unfold k, zlength; lia|].
+    split; [rewrite Hun'; unfold sb, sa; cbn [advance with_pc with_unnamed put_vm m_unnamed]; rewrite <- app_assoc; reflexivity|].
+    split; [rewrite Hsk'; reflexivity|]. split; [rewrite Hfr'; reflexivity|]. cbn [length]. rewrite Hlen'. reflexivity.
+Qed.
+
+
+Lemma printf_step im ss s fmt vs names k : sim ss (with_unnamed s []) -> m_unnamed s = vs ->
+  printf_names fmt = Some names -> printf_positional fmt = Some k -> (zlength vs <= k) -> names_visible names = true ->
+  fetch im (m_pc s) = Some (I2 OC_OUT (PIoOp IO_PRINTF) (PStr fmt)) ->
+  esteps 1 im s = Some (advance (with_unnamed s []),
+    [EvPrintf fmt vs (map (fun n => (n, match register_of_name n with Some r => rreg (s_regs ss) r | None => lookup ss n end)) names)] ++ []).
+Proof.
+  intros Hsim Hun Hn Hk Hle Hvis Hf. cbn [esteps]. rewrite Hf. cbn [Machine.exec i_op i_p0 i_p1 I2]. rewrite Hn, Hk, Hun.
+  replace (Z.to_nat (Z.max 0 (zlength vs - k))) with 0%nat by lia. cbn [firstn skipn].
+  assert (Hnamed : map (fun n => (n, match register_of_name n with Some r => reg s r | None => get_var (m_globals s) (m_frames s) n end)) names =
+                   map (fun n => (n, match register_of_name n with Some r => rreg (s_regs ss) r | None => lookup ss n end)) names).
+  { apply map_ext_in. intros n Hin. f_equal. pose proof (proj1 (forallb_forall _ _) Hvis n Hin) as Hv.
+    cbv beta in Hv. destruct (register_of_name n) as [r|].
+    - unfold reg. change (get_reg s r) with (get_reg (with_unnamed s []) r). rewrite (sim_get_reg ss _ r Hsim Hv). reflexivity.
+    - exact (sim_lookup ss (with_unnamed s []) n Hsim). }
+  rewrite Hnamed. reflexivity.
 Qed.
 
 (* ---- a call of a user routine ---- *)
@@ -549,7 +631,7 @@ Proof.
   assert (Hs1 : simr ss s1).
   { destruct Hsim as [Hr Hfu Hg Hv Hst Hw Hu Hdf]. constructor; cbn [s1 advance with_pc with_frames with_vars m_regs m_globals m_frames m_world m_unnamed vars_of]; assumption. }
   assert (HcA1 : code_at im (m_pc s1) CA) by exact HcA.
-  destruct (args_run args ps Hpl fuel im ss s1 [] F vs sa Hs1 eq_refl HcA1 Ea) as [Hsa (n2 & s2 & p1 & E2 & Hs2 & Hpc2 & Hfr2 & Hst2 & Hbind)]. subst sa.
+  destruct (args_run args ps Hpl fuel im ss s1 [] F vs sa Hs1 eq_refl HcA1 Ea) as [Hsa (n2 & s2 & p1 & E2 & Hs2 & Hpc2 & Hfr2 & Hst2 & Hbind & Hun2)]. subst sa.
   fold CA in Hpc2. fold kA in Hpc2. rewrite Hbind in He.
   assert (Hpc2' : m_pc s2 = m_pc s + 1 + kA) by (rewrite Hpc2; reflexivity).
   destruct (call_builtin f p1) as [v|e] eqn:Ecb; cbn [lift_res] in He; [|discriminate]. injection He as Hx Hss. subst v ss'.
@@ -569,9 +651,10 @@ Proof.
   assert (E4 : esteps 1 im s3 = Some (s4, [])) by (apply (estep1 im s3 _ _ _ Hfe'); reflexivity).
   exists (1 + (n2 + (1 + 1)))%nat, s4. split; [change (@nil event) with ([] ++ ([] ++ ([] ++ @nil event))); eapply esteps_app; [exact E1|eapply esteps_app; [exact E2|eapply esteps_app; [exact E3|exact E4]]]|].
   split.
-  { destruct Hs2 as [Hr Hfu Hg Hv Hw Hu Hdf]. destruct Hsim as [_ _ _ Hv0 Hst0 _ _ _].
+  { destruct Hs2 as [Hr Hfu Hg Hv Hw Hdf]. destruct Hsim as [_ _ _ Hv0 Hst0 _ Hu0 _].
     constructor; cbn [s4 s3 sR advance with_pc with_stack with_frames with_regs with_vars m_regs m_globals m_frames m_world m_unnamed]; try assumption.
     - apply agree_set_hidden; [exact Hr|reflexivity].
+    - rewrite Hun2. exact Hu0.
     - rewrite rf_get_set_other; [exact Hdf|reflexivity]. }
   split.
   { change (m_pc s4) with (ret + 1). unfold ret. rewrite Hpc2'. unfold zlength. rewrite !app_length, !Nat2Z.inj_add. cbn [length]. unfold kA, zlength. lia. }
@@ -610,7 +693,7 @@ Proof.
   { destruct Hsim as [Hr Hfu Hg Hv Hst Hw Hu Hdf]. constructor; cbn [s1 advance with_pc with_frames with_vars m_regs m_globals m_frames m_world m_unnamed vars_of]; assumption. }
   (* the arguments *)
   assert (HcA1 : code_at im (m_pc s1) CA) by exact HcA.
-  destruct (args_run args ps Hpl fuel im ss s1 [] F vs sa Hs1 eq_refl HcA1 Ea) as [Hsa (n2 & s2 & p1 & E2 & Hs2 & Hpc2 & Hfr2 & Hst2 & Hbind)]. subst sa.
+  destruct (args_run args ps Hpl fuel im ss s1 [] F vs sa Hs1 eq_refl HcA1 Ea) as [Hsa (n2 & s2 & p1 & E2 & Hs2 & Hpc2 & Hfr2 & Hst2 & Hbind & Hun2)]. subst sa.
   fold CA in Hpc2. fold kA in Hpc2. rewrite Hbind in He.
   assert (Hpc2' : m_pc s2 = m_pc s + 1 + kA) by (rewrite Hpc2; reflexivity).
   (* JSR *)
@@ -623,7 +706,8 @@ Proof.
     apply (estep1 im s2 _ _ _ Hfj'). cbn [Machine.exec i_op i_p0 I1]. rewrite Hfr2, (not_builtin f Hb), Hfind. reflexivity. }
   set (ssb := s_with_locals ss (Some p1)) in *.
   assert (Hs3 : sim ssb s3).
-  { destruct Hs2 as [Hr Hfu Hg Hv Hw Hu Hdf]. constructor; cbn [s3 ssb with_pc with_frames with_vars s_with_locals m_regs m_globals m_frames m_world m_unnamed s_regs s_globals s_locals s_world vars_of settled]; try assumption; reflexivity. }
+  { destruct Hs2 as [Hr Hfu Hg Hv Hw Hdf]. assert (Hu : m_unnamed s2 = []) by (rewrite Hun2; exact (sim_unnamed _ _ Hsim)).
+    constructor; cbn [s3 ssb with_pc with_frames with_vars s_with_locals m_regs m_globals m_frames m_world m_unnamed s_regs s_globals s_locals s_world vars_of settled]; try assumption; reflexivity. }
   assert (Hct3 : call_tail (m_frames s3) = Some (ret, F)) by reflexivity.
   assert (Hd3 : in_depth_ok true s3) by (intros _; exact I).
   assert (Hin3 : in_loop_ok false None) by (intros H; discriminate).
@@ -982,6 +1066,27 @@ Proof.
     exists (n + 1)%nat, s2, (evs ++ []). split; [eapply esteps_app; eassumption|].
     split; [split; [destruct Hs' as [Hr1 Hf1 Hg1 Hv1 Hst1 Hw1 Hu1 Hdf1]; repeat split; assumption|exact (Hres Hmr)]|].
     split; [reflexivity|]. split; [reflexivity|]. split; [exact Hrs1|]. rewrite app_nil_r. exact Ht.
+  - (* printf: the values wait as unnamed parameters; OUT PRINTF takes them and the named fields *)
+    intros inl inr fmt args names k Hn Hk Hpl Hlen Hvis after im ss s sig ss' fuel Hle _ _ _ _ Hsim Hc He.
+    destruct fuel as [|fuel]; [discriminate|]. rewrite exec_printf in He. rewrite c_printf in *.
+    destruct (eval_args rt mt fuel false ss args) as [vs sa|e sa|sa] eqn:Ea; cbn [sbind] in He; try discriminate. rewrite Hn in He.
+    injection He as Hsig Hss. subst sig ss'.
+    apply code_at_app in Hc. destruct Hc as [Hca Hcp]. cbn [code_at] in Hcp. destruct Hcp as [Hfp _].
+    destruct (pf_args_run args fuel im ss s vs sa Hpl (sim_simr _ _ Hsim) Hca Ea) as [Hsa (n & s1 & E1 & Hs1 & Hpc1 & Hun1 & Hsk1 & Hfr1 & Hlen1)]. subst sa.
+    rewrite (sim_unnamed _ _ Hsim) in Hun1. cbn [app] in Hun1.
+    assert (Hsim1 : sim ss (with_unnamed s1 [])).
+    { destruct Hs1 as [H1 H2 H3 H4 H5 H6]. destruct Hsim as [_ _ _ Hv0 Hst0 _ _ _].
+      constructor; cbn [with_unnamed m_regs m_globals m_frames m_world m_unnamed]; try assumption; try reflexivity; rewrite Hfr1; assumption. }
+    assert (Hle' : zlength vs <= k) by (apply Z.leb_le in Hlen; unfold zlength in *; rewrite Hlen1; exact Hlen).
+    assert (Hfp' : fetch im (m_pc s1) = Some (I2 OC_OUT (PIoOp IO_PRINTF) (PStr fmt))) by (rewrite Hpc1; exact Hfp).
+    pose proof (printf_step im ss s1 fmt vs names k Hsim1 Hun1 Hn Hk Hle' Hvis Hfp') as E2.
+    left. split; [reflexivity|].
+    exists (n + 1)%nat, (advance (with_unnamed s1 [])), ([] ++ ([EvPrintf fmt vs (map (fun n0 => (n0, match register_of_name n0 with Some r => rreg (s_regs ss) r | None => lookup ss n0 end)) names)] ++ [])).
+    split; [eapply esteps_app; eassumption|].
+    split; [apply sim_emit; destruct Hsim1 as [H1 H2 H3 H4 H5 H6 H7 H8]; constructor; assumption|].
+    split; [cbn [advance with_pc with_unnamed m_pc]; rewrite Hpc1; unfold zlength; rewrite app_length, Nat2Z.inj_add; cbn [length]; lia|].
+    split; [cbn [advance with_pc with_unnamed m_stack]; unfold fr; cbn [advance with_pc with_unnamed m_frames]; rewrite Hsk1, Hfr1; reflexivity|].
+    cbn [app]. apply trace_emit.
   - (* if without else *)
     intros inl inr c a Hc Ha IHa after im ss s sig ss' fuel Hle Hload Hin Hir Hd Hsim Hcode He.
     destruct fuel as [|fuel]; [discriminate|]. rewrite exec_if in He. rewrite c_if1_after in *.
@@ -1920,6 +2025,11 @@ Fixpoint simpleB_b (fuel : nat) (inl inr : bool) (st : stmt) : bool :=
           | None, Some d => plain_args mt args (rd_params d)
           | _, _ => false
           end
+      | SPrintf fmt args =>
+          match printf_names fmt, printf_positional fmt with
+          | Some names, Some k => forallb (plain_rval mt) args && (zlength args <=? k) && names_visible names
+          | _, _ => false
+          end
       | SIf c a None => plain_rval mt c && simpleB_b f inl inr a
       | SIf c a (Some b) => plain_rval mt c && simpleB_b f inl inr a && simpleB_b f inl inr b
       | SBlock l => forallb (simpleB_b f inl inr) l
@@ -2005,6 +2115,10 @@ Proof.
   - (* print the value of a call *)
     destruct v as [v|]; [|discriminate]. exact (Huse (UPrint false) v H eq_refl).
   - destruct v as [v|]; [|discriminate]. exact (Huse (UPrint true) v H eq_refl).
+  - (* printf *)
+    destruct (printf_names fmt) as [names|] eqn:En; [|discriminate]. destruct (printf_positional fmt) as [k|] eqn:Ek; [|discriminate].
+    apply andb_true_iff in H. destruct H as [H Hv]. apply andb_true_iff in H. destruct H as [Hp Hl].
+    exact (B_printf rt mt inl inr fmt args names k En Ek Hp Hl Hv).
   - apply B_block. clear Ea. induction ss as [|x r IHr]; [constructor|]. cbn [forallb] in H. apply andb_true_iff in H. destruct H as [Hx Hr].
     constructor; [apply IH; exact Hx|apply IHr; exact Hr].
 Qed.
